@@ -290,10 +290,11 @@ Snapshot ==
 UserStep == cnt' = [cnt EXCEPT !.user = @ + 1]
 
 \* TorState.add_circuit_listener / add_stream_listener: existing live objects and future ones
+\* (adding a listener again re-attaches it to every object it has been taken off meanwhile)
 AddListener(l) ==
-  /\ phase = "live" /\ l \in Listeners /\ l \notin SeqToSet(m.cl)
+  /\ phase = "live" /\ l \in Listeners
   /\ m' = [Reset(m) EXCEPT
-             !.cl = Append(@, l), !.sl = Append(@, l),
+             !.cl = IF l \in SeqToSet(@) THEN @ ELSE Append(@, l), !.sl = IF l \in SeqToSet(@) THEN @ ELSE Append(@, l),
              !.c = [i \in CircIds |-> IF m.c[i].live /\ l \notin SeqToSet(m.c[i].ls)
                                       THEN [m.c[i] EXCEPT !.ls = Append(@, l)] ELSE m.c[i]],
              !.s = [i \in StreamIds |-> IF m.s[i].live /\ l \notin SeqToSet(m.s[i].ls)
